@@ -195,11 +195,11 @@ CHECKS['C04'] = (
     'placed anywhere in .debug_abbrev behind arbitrary gaps and shared between units) the model of iter_CUs()/iter_TUs() + iter_DIEs() on the Spec encoding yields exactly the described units '
     'and, per unit, the preorder flattening with resolved attribute values, parents, children and sizes tiling to the declared length; the model in the statement is the one the driver runs '
     '(regenerated registry, bundles and raw2name); layers below it: form round trip (46 forms incl. legacy DW_FORM_ref x 32 configurations), abbreviation tables, entries with DW_FORM_indirect chains '
-    'and implicit_const, top DIE with deferred translation, value translation, unit/type-unit headers, references (unit-relative, section-relative, sig8 over .debug_types with the whole-section scan); '
+    'and implicit_const, top DIE with deferred translation, value translation, unit/type-unit headers, references (unit-relative, section-relative, sig8 over the type units of .debug_types AND the DWARF 5 type units of .debug_info with both whole-section scans: ref_sig8_debug_types, ref_sig8_debug_info_v5, ref_sig8_absent); '
     'correspondence of the full DIE model on Lean-encoded forests',
     'Proof of every layer and of their composition: the only hypotheses of the section theorems are the description\'s decidable well-formedness (wfForestB, evaluated by the driver on every case) and '
     'address size in {4, 8}.',
-    'DW_FORM_ref_sig8 to a DWARF 5 type unit in .debug_info raises KeyError (known finding sig8-v5-type-unit, judged by the harness; ref_sig8_debug_types is full for .debug_types). '
+    'DW_FORM_ref_sig8 to a DWARF 5 type unit in .debug_info: former known finding sig8-v5-type-unit, repaired (fix 6a8fa76) and now a theorem; a signature lookup under a scan that raises is correspondence-only. '
     'Not connected by a theorem: the driver\'s linear section-relative lookup vs C13\'s bisect model of get_CU_containing (each proved against the Spec separately); the cache refinement of _get_cached_DIE is C10\'s subject.',
     'DESIGN.md §6 C04')
 
